@@ -534,7 +534,9 @@ class KademliaProtocol(DatagramProtocol):
     def datagram_received(self, datagram: bytes, address: typing.Tuple[str, int]) -> None:  # pylint: disable=arguments-renamed
         try:
             message = decode_datagram(datagram)
-        except (ValueError, TypeError, DecodeError):
+        except Exception:  # pylint: disable=broad-except
+            # anything a remote host can put in a datagram: besides DecodeError/ValueError/TypeError, truncated
+            # or malformed input raises IndexError, KeyError, AttributeError, RecursionError... from the decoder
             self.peer_manager.report_failure(address[0], address[1])
             log.warning("Couldn't decode dht datagram from %s: %s", address, datagram.hex())
             return
